@@ -19,7 +19,7 @@ IP = "bibtexparser.middlewares.interpolate."
 SP = "bibtexparser.splitter.Splitter."
 SPLIT_SCANNERS = [SP + "_next_mark", SP + "_move_to_closed_bracket", SP + "_move_to_comma_or_closing_curly_bracket", SP + "_move_to_end_of_entry"]
 SPLIT_HANDLERS = [SP + "_handle_explicit_comment", SP + "_handle_preamble", SP + "_handle_string", SP + "_handle_entry"]
-SPLIT_LEMMAS = ["nls-run", "nls-monotone", "bal-skips-newlines", "field-state-skips-newlines"]
+SPLIT_LEMMAS = ["nls-run", "nls-monotone", "bal-skips-newlines", "field-state-skips-newlines", "slice-is-region"]
 MARK_NOTE = (STD_NOTE + "; A-RE (ASSUMED, validated bounded every run by native/a_re.py against the pattern the running code passes to re.finditer): "
              "the marks are non-empty, ordered, non-overlapping, each one of { } \" , = newline or an '@word' directly followed by a '{' mark; "
              "match objects and the iterator are modelled by ghost arrays and a ghost cursor (pyvc/marks.py); the contract of "
@@ -50,14 +50,15 @@ PROPS = {
     },
     "C03": {
         "level": "other",
-        "level_text": "Mixed. Proved on the real splitter functions (A-RE assumed): the line counter equals the number of newline marks consumed minus one at every call boundary (scan invariant), every block's start_line is the line of its '@' mark and every field's start_line the line of its '='; raw of a block is text[start of '@' : end of its closing '}'], raw of a failed block is text[start of '@' : end_index] where end_index is the start of the handed-back mark or the end of the text, the next free text starts exactly there (no character between a failed block and what follows is dropped or shared), and the pending free-text start never lies beyond unconsumed text. Bounded (native, labelled): the tiling statement over whole documents (needs the assumed contract of _end_implicit_comment and character-level reasoning on free text), CRLF / backslash-newline families, that every newline character is a newline mark.",
+        "level_text": "Mixed. Proved on the real splitter functions (A-RE assumed): the line counter equals the number of newline marks consumed minus one at every call boundary (scan invariant), every block's start_line is the line of its '@' mark and every field's start_line the line of its '='; raw of a block is text[start of '@' : end of its closing '}'], raw of a failed block is text[start of '@' : end_index] where end_index is the start of the handed-back mark or the end of the text, the next free text starts exactly there (no character between a failed block and what follows is dropped or shared), and the pending free-text start never lies beyond unconsumed text; TILING as a postcondition of split(): ghost code records one region of the text per step -- the free text handed to _end_implicit_comment and the raw text of every block or failed block added to the library -- and the regions are consecutive, start at 0, end at the end of the text, and the raw of every block region is exactly that piece of the text (also through Library.add's duplicate wrappers), so no character lies in two regions or in none. Bounded (native, labelled): what happens inside a free-text region (_end_implicit_comment strips only whitespace: its contract is assumed, 38 of 40 obligations), CRLF / backslash-newline families, that every newline character is a newline mark (R5 of A-RE, validated bounded).",
         "level_note": MARK_NOTE,
         "modules": ["schema", "library", "model", "splitter"],
-        "functions": SPLIT_SCANNERS + SPLIT_HANDLERS + [SP + "split", SP + "_end_implicit_comment"],
+        "functions": SPLIT_SCANNERS + SPLIT_HANDLERS + [SP + "split", SP + "_end_implicit_comment", LB + "add#single-quiet", LB + "_cast_to_duplicate", LB + "_add_to_dicts"],
+        "tags": ["C03", "C09", "C08"],
         "lemmas": SPLIT_LEMMAS,
         "native": "p03",
         "assumption_checks": ["A-RE"],
-        "explanation": "proved: line counting, start lines, raw boundaries of blocks and failed blocks, free-text start bookkeeping; bounded: whole-document tiling, implicit comment extraction, CRLF/backslash families",
+        "explanation": "proved: line counting, start lines, raw boundaries, and the tiling of the text by free-text regions and block raw texts as a postcondition of split(); bounded: whitespace-only stripping inside free-text regions (assumed contract of _end_implicit_comment), CRLF/backslash families",
     },
     "C04": {
         "level": "other",
